@@ -46,12 +46,15 @@ def textLine (a : List String) (impl : String) : Verdict :=
       | _ => [("C18", "rendering failed")]
     mk false model impl oracle
   | "dec_from_str" | "dec_json_dec" =>
+    -- JSON: `jsonDec` follows serde-json-wasm including escape sequences, so the text judged by the
+    -- oracle is the *unescaped* string (`"\u0031"` must decode to 1); only texts that are not one
+    -- well-formed JSON string (bad escape, lone surrogate, unterminated, trailing bytes) are malformed
     let raw := unhex arg
     let txt : M (List Nat) := if op == "dec_json_dec" then jsonDec raw else .ok raw
     let model := res1 (txt >>= decParse)
     let oracle := match okVals impl, txt with
       | some [v], .ok s => chk "C18" "accepted string does not denote the parsed value" (denote s == some v)
-      | some _, .error _ => [("C18", "malformed JSON string accepted")]
+      | some _, .error _ => [("C18", "JSON text that is not one well-formed string accepted")]
       | _, _ => []
     mk false model impl oracle
   | "uint_from_str" | "uint_try_from" | "uint_json_dec" =>
@@ -60,7 +63,7 @@ def textLine (a : List String) (impl : String) : Verdict :=
     let model := res1 (txt >>= uintParse)
     let oracle := match okVals impl, txt with
       | some [v], .ok s => chk "C18" "accepted string does not denote the parsed value" (s.all isDigit && valOf s == v)
-      | some _, .error _ => [("C18", "malformed JSON string accepted")]
+      | some _, .error _ => [("C18", "JSON text that is not one well-formed string accepted")]
       | _, _ => []
     mk false model impl oracle
   | "dec_rt" =>
@@ -91,13 +94,15 @@ def textLine (a : List String) (impl : String) : Verdict :=
     mk false model impl (chk "C18" "u128 → Uint256 → u128 changed the value" (impl == s!"ok {w}"))
   | "std_rt" =>
     let w := nat! arg
-    let model := match toU128 w with
-      | .ok w' => s!"ok {w} {w'}"
+    let model := match decFromStd w with
+      | .ok d => (match decToStd d with
+        | .ok w' => s!"ok {d} {w'}"
+        | .error _ => "fail")
       | .error _ => "fail"
     mk false model impl (chk "C18" "Decimal → Decimal256 → Decimal changed the value" (impl == s!"ok {w} {w}"))
   | "dec_to_std" | "uint_to_u128" =>
     let v := nat! arg
-    let model := res1 (toU128 v)
+    let model := res1 (if op == "dec_to_std" then decToStd v else toU128 v)
     let oracle := if v < W then chk "C18" "narrowing conversion changed a fitting value" (impl == s!"ok {v}")
       else chk "C18" "narrowing conversion accepted a value that does not fit" (isFail impl)
     mk false model impl oracle
